@@ -85,6 +85,7 @@ struct State {
     labels: Vec<Label>,
     keep_labels: bool,
     gate: bool,
+    post_gate: bool,
     powered_off: bool,
     crash_at: Option<u64>,
     mutation_attempts: u64,
@@ -110,6 +111,22 @@ impl std::fmt::Debug for Ctl {
 impl Ctl {
     pub fn set_gate(&self, on: bool) {
         self.st.lock().gate = on;
+    }
+    /// When on (together with the gate), every call also suspends once AFTER
+    /// it took effect and before its result is delivered: the window in
+    /// which a response is in flight while other tasks run.
+    pub fn set_post_gate(&self, on: bool) {
+        self.st.lock().post_gate = on;
+    }
+    /// Awaited by every call after its effect.
+    pub async fn leave(&self) {
+        let on = {
+            let st = self.st.lock();
+            st.gate && st.post_gate
+        };
+        if on {
+            Gate { armed: true }.await;
+        }
     }
     pub fn keep_labels(&self, on: bool) {
         self.st.lock().keep_labels = on;
@@ -302,11 +319,16 @@ impl ObjectStore for CtlStore {
     async fn put_opts(&self, location: &Path, payload: PutPayload, opts: PutOptions) -> Result<PutResult> {
         let ans = self.ctl.enter("put", location.as_ref(), true).await?;
         let data = payload_bytes(&payload);
-        let r = self.inner.put_opts(location, payload, opts).await?;
+        let r = self.inner.put_opts(location, payload, opts).await;
+        if r.is_err() {
+            self.ctl.leave().await;
+        }
+        let r = r?;
         self.ctl.record(Mutation::Put {
             path: location.to_string(),
             data,
         });
+        self.ctl.leave().await;
         if ans.is_some() {
             return Err(Ctl::injected("put", location.as_ref(), "scripted error after the write landed"));
         }
@@ -332,12 +354,16 @@ impl ObjectStore for CtlStore {
         self.ctl
             .enter(if options.head { "head" } else { "get" }, location.as_ref(), false)
             .await?;
-        self.inner.get_opts(location, options).await
+        let r = self.inner.get_opts(location, options).await;
+        self.ctl.leave().await;
+        r
     }
 
     async fn get_ranges(&self, location: &Path, ranges: &[std::ops::Range<u64>]) -> Result<Vec<Bytes>> {
         self.ctl.enter("get_ranges", location.as_ref(), false).await?;
-        self.inner.get_ranges(location, ranges).await
+        let r = self.inner.get_ranges(location, ranges).await;
+        self.ctl.leave().await;
+        r
     }
 
     fn delete_stream(
@@ -353,10 +379,15 @@ impl ObjectStore for CtlStore {
                 async move {
                     let location = location?;
                     let ans = ctl.enter("delete", location.as_ref(), true).await?;
-                    inner.delete(&location).await?;
+                    let r = inner.delete(&location).await;
+                    if r.is_err() {
+                        ctl.leave().await;
+                    }
+                    r?;
                     ctl.record(Mutation::Delete {
                         path: location.to_string(),
                     });
+                    ctl.leave().await;
                     if ans.is_some() {
                         return Err(Ctl::injected(
                             "delete",
@@ -404,16 +435,23 @@ impl ObjectStore for CtlStore {
     async fn list_with_delimiter(&self, prefix: Option<&Path>) -> Result<ListResult> {
         let p = prefix.cloned().unwrap_or_default();
         self.ctl.enter("list", p.as_ref(), false).await?;
-        self.inner.list_with_delimiter(prefix).await
+        let r = self.inner.list_with_delimiter(prefix).await;
+        self.ctl.leave().await;
+        r
     }
 
     async fn copy_opts(&self, from: &Path, to: &Path, options: CopyOptions) -> Result<()> {
         let ans = self.ctl.enter("copy", from.as_ref(), true).await?;
-        self.inner.copy_opts(from, to, options).await?;
+        let r = self.inner.copy_opts(from, to, options).await;
+        if r.is_err() {
+            self.ctl.leave().await;
+        }
+        r?;
         self.ctl.record(Mutation::Copy {
             from: from.to_string(),
             to: to.to_string(),
         });
+        self.ctl.leave().await;
         if ans.is_some() {
             return Err(Ctl::injected("copy", from.as_ref(), "scripted error after the copy landed"));
         }
@@ -422,11 +460,16 @@ impl ObjectStore for CtlStore {
 
     async fn rename_opts(&self, from: &Path, to: &Path, options: RenameOptions) -> Result<()> {
         let ans = self.ctl.enter("rename", from.as_ref(), true).await?;
-        self.inner.rename_opts(from, to, options).await?;
+        let r = self.inner.rename_opts(from, to, options).await;
+        if r.is_err() {
+            self.ctl.leave().await;
+        }
+        r?;
         self.ctl.record(Mutation::Rename {
             from: from.to_string(),
             to: to.to_string(),
         });
+        self.ctl.leave().await;
         if ans.is_some() {
             return Err(Ctl::injected("rename", from.as_ref(), "scripted error after the rename landed"));
         }
